@@ -623,10 +623,10 @@ func TestVF_C43_Timeline(t *testing.T) {
 		}
 		if len(res.viol) > 0 {
 			tr := res.trace
-			if len(tr) > 120 {
-				tr = tr[len(tr)-120:]
+			if len(tr) > 45 {
+				tr = tr[len(tr)-45:]
 			}
-			rt.Fatalf("C43 violated:\n%s\nenv: %+v\ntrace (tail):\n%s", strings.Join(res.viol, "\n"), env, strings.Join(tr, "\n"))
+			rt.Fatalf("C43 violated (details after the trace)\ntrace (tail):\n%s\nenv: %+v\nC43 violated:\n%s", strings.Join(tr, "\n"), env, strings.Join(res.viol, "\n"))
 		}
 	})
 }
